@@ -15,7 +15,7 @@ def count(evs, ev, **kw):
 
 
 PROPS = {
-    "C01": {"families": ["core", "prio", "faults", "groups", "stop"],
+    "C01": {"families": ["regress", "core", "prio", "faults", "groups", "stop"],
             "nontrivial_rule": "at least two successful record mutations by different writers or a takeover/delete",
             "mc": ["MC_Core2", "MC_Prio"]},
     "C02": {"families": ["core", "stop", "health"],
@@ -27,16 +27,16 @@ PROPS = {
     "C04": {"families": ["validate"],
             "nontrivial_rule": "a ValidateToken / ValidateTokenOrDemote call returned",
             "mc": ["MC_Faults"]},
-    "C05": {"families": ["core", "prio", "faults"],
+    "C05": {"families": ["regress", "core", "prio", "faults"],
             "nontrivial_rule": "two or more successful acquisitions (terms) in the trace",
             "mc": ["MC_Core2", "MC_Prio"]},
     "C06": {"families": ["vacancy", "faults"],
             "nontrivial_rule": "the record becomes vacant (delete, expiry) while another instance runs",
             "mc": ["MC_Faults"]},
-    "C07": {"families": ["core", "stop"],
+    "C07": {"families": ["regress", "core", "stop"],
             "nontrivial_rule": "a term lasting at least two successful refreshes with a second instance or a stop in the trace",
             "mc": ["MC_Core2"]},
-    "C08": {"families": ["core", "faults", "health", "conn", "stop", "prio"],
+    "C08": {"families": ["regress", "core", "faults", "health", "conn", "stop", "prio"],
             "nontrivial_rule": "at least one promotion and one loss of leadership",
             "mc": ["MC_Core2", "MC_Faults"]},
     "C09": {"families": ["stop", "core", "conn"],
@@ -51,13 +51,13 @@ PROPS = {
     "C12": {"families": ["health"],
             "nontrivial_rule": "at least one unhealthy result on a leader's heartbeat tick",
             "mc": ["MC_Health"]},
-    "C13": {"families": ["validate", "faults"],
+    "C13": {"families": ["regress", "validate", "faults"],
             "nontrivial_rule": "an outside write or delete of the record happens while instances run",
             "mc": ["MC_Faults"]},
-    "C18": {"families": ["core", "stop", "faults", "prio"],
+    "C18": {"families": ["regress", "core", "stop", "faults", "prio"],
             "nontrivial_rule": "snapshots of at least one leader and one non-leader state",
             "mc": ["MC_Core2"]},
-    "C19": {"families": ["core", "faults", "health", "conn", "stop"],
+    "C19": {"families": ["regress", "core", "faults", "health", "conn", "stop"],
             "nontrivial_rule": "a promotion whose term ends inside the trace",
             "mc": ["MC_Core2"]},
 }
